@@ -597,19 +597,30 @@ def status_evaluation(report, db, S, M, P):
 
 
 # ---------------------------------------------------------------------------
-def mismatch(report, db, cg, M, P):
-    R = report.rule('R09.4m', '_version_mismatch names the server version '
-                    'and states correctly whether it is unsupported or '
-                    'merely not allowed')
+def mismatch(report, db, cg, M, P, rule_id='R09.4m'):
+    R = report.rule(rule_id, '_version_mismatch raises VersionMismatch, '
+                    'names the server version and states correctly whether '
+                    'it is unsupported or merely not allowed, however its '
+                    'two arguments are given')
     vm = M.conn_method('_version_mismatch')
     F = P.F
     sup = P.supported[0]
     unsup = [v for v in P.known if v not in P.supported][0]
+    supname = [k for k, v in P.T['KNOWN_MINECRAFT_VERSIONS'].items()
+               if v == sup][0]
+    unsupname = [k for k, v in P.T['KNOWN_MINECRAFT_VERSIONS'].items()
+                 if v == unsup][0]
+    # every way the two arguments can be given: a number, a name the tables
+    # know (supported or not), a name they do not know, nothing
     cases = [
         (dict(server_protocol=sup, server_version='X'), sup, 'X', True),
         (dict(server_protocol=unsup, server_version='Y'), unsup, 'Y', False),
         (dict(server_protocol=987654), 987654, None, False),
         (dict(server_protocol=sup), sup, None, True),
+        (dict(server_version=supname), sup, supname, True),
+        (dict(server_version=unsupname), unsup, unsupname, False),
+        (dict(server_version='9.99-nowhere'), None, '9.99-nowhere', False),
+        (dict(), None, None, False),
     ]
     for kw, proto, name, supported in cases:
         inst = Instance(M.conn, {})
@@ -646,8 +657,10 @@ def mismatch(report, db, cg, M, P):
             if not supported and not (says_unsupported and
                                       not says_allowed):
                 probs.append('message %r for an unsupported version' % msg)
-            if str(proto) not in msg:
+            if proto is not None and str(proto) not in msg:
                 probs.append('message does not name protocol %d' % proto)
+            if name is not None and proto is None and name not in msg:
+                probs.append('message does not name version %r' % name)
         else:
             probs.append('message does not fold to a string')
         if probs:
